@@ -19,8 +19,8 @@ import (
 // The fields become parameters (new variables registered in types.Info, one per field, in field order); a field a keyed
 // literal leaves out is passed as its zero value.
 type paramObj struct {
-	v      *types.Var   // the parameter
-	idx    int          // its index in the signature
+	v      *types.Var // the parameter
+	idx    int        // its index in the signature
 	st     *types.Struct
 	fields []*types.Var // one new parameter variable per field
 }
